@@ -5,7 +5,7 @@ System under test: real pymoto.minimize_oc.  The *environment* is a harness netw
 every design the loop evaluates; the states left in the signals after the call are the last design.
 
 Oracle per transition x_k -> x_{k+1} (simulated time = optimiser iterations):
-  bounds        xmin <= x_{k+1} <= xmax                                   (exact)
+  bounds        xmin <= x_{k+1} <= xmax                                   (1e-12*scale slack; observed excess 0)
   move          |x_{k+1} - x_k| <= move per variable                      (rounding slack only)
   volume        |sum x_{k+1} - maxvol| <= allowance of the plateau-aware reference volume model, whenever maxvol is
                 reachable within the move limits and the multiplier lies inside [l1init, l2init]
@@ -33,7 +33,7 @@ from sim.core import sub_rng, jdump
 
 PROP = "C17"
 LEVEL = "exploration"
-TIERS = {"quick": dict(runs=4000, chunk=50), "thorough": dict(budget_s=480, max_runs=1_000_000, chunk=200)}
+TIERS = {"quick": dict(runs=8000, chunk=100), "thorough": dict(budget_s=480, max_runs=1_000_000, chunk=200)}
 RUN_WALL_CAP = 60
 RULE = ("one case = one minimize_oc run on f = sum c_i/x_i: 1-4 variable signals (Python float / 1-element array / vector, "
         "n <= 12), c from a seed, xmin/xmax scalar or per-variable, move scalar or per-variable (0.05..1.5 of the box width), "
